@@ -81,6 +81,15 @@ def run_maps(ctx, p):
             want = float(np.sqrt(np.sum(np.asarray(v, dtype=ref.LD) ** 2)))
             d = max(abs(b.norm(v) - want) / want, abs(b.normsq(v) - want * want) / (want * want),
                     md(b.colvec(v), v.reshape(-1, 1)))
+            # every documented vector form (list, tuple, 1-D, row, column) is a vector to these helpers; a scalar comes back
+            for form in gen.FORMS:
+                vf = gen.as_form(v, form)
+                n_, q_ = b.norm(vf), b.normsq(vf)
+                if np.ndim(n_) != 0 or np.ndim(q_) != 0:
+                    d = math.inf
+                else:
+                    d = max(d, abs(float(n_) - want) / want, abs(float(q_) - want * want) / (want * want))
+                d = max(d, md(b.colvec(vf), v.reshape(-1, 1)))
             cv = b.colvec(v)
             if cv.shape != (len(v), 1):
                 d = math.inf
